@@ -263,3 +263,63 @@ func rogueCatalogue(c *core.Ctx) []greet {
 }
 
 func legit() greet { return greet{Kind: "hello", Cmd: ccb.CommandReverseConnect, Form: "right"} }
+
+// okReplyFields is the broker's {Result:true} reply, optionally decorated with
+// attributes a confused or malicious broker/relay may add: a ClaimId (per the
+// resolved echo: a string, an integer, or none) and a few more that repeat the
+// same value under other names.  The requester must not let any of them decide
+// which hello it accepts.
+func okReplyFields(echo *greet) map[string]any {
+	f := map[string]any{ccb.AttrResult: true}
+	if echo == nil {
+		return f
+	}
+	switch {
+	case echo.HasClaim:
+		f[ccb.AttrClaimID] = echo.Claim
+		f[ccb.AttrRequestID] = echo.Claim
+		f[ccb.AttrName] = echo.Claim
+	case echo.Form == "int":
+		f[ccb.AttrClaimID] = int64(12345)
+	default: // absent: other extras only
+		f[ccb.AttrRequestID] = "7"
+		f[ccb.AttrMyAddress] = "<127.0.0.1:1>"
+	}
+	return f
+}
+
+// echoTerm is the Coq [option bytes] of PrOk: the ClaimId string of the reply.
+func echoTerm(echo *greet) string {
+	if echo == nil || !echo.HasClaim {
+		return "None"
+	}
+	return "(Some " + bytesTerm(echo.Claim) + ")"
+}
+
+func echoName(echo *greet) string {
+	if echo == nil {
+		return "plain"
+	}
+	return "echo-" + echo.Form
+}
+
+// attacker-chosen id used both as a reply's ClaimId and as a hello's ClaimId
+const chosenID = "00112233445566778899aabbccddeeff00112233"
+
+func helloForm(form string) greet {
+	g := greet{Kind: "hello", Cmd: ccb.CommandReverseConnect, Form: form}
+	if form == "lit" {
+		g.Lit = chosenID
+	}
+	return g
+}
+
+func echoDesc(echo *greet) string {
+	switch {
+	case echo == nil:
+		return "none"
+	case echo.HasClaim:
+		return fmt.Sprintf("%q", echo.Claim)
+	}
+	return echo.Form
+}
